@@ -98,9 +98,22 @@ class Pool:
             self.socks.append(s)
         self.replies = {}
         self.n = 0
+        self.sources = k
 
     def send(self, rng, data, addr):
-        s = rng.choice(self.socks)
+        # mostly a small set of long-lived endpoints, sometimes a brand-new source endpoint
+        # (single-port mode keeps per-source state in the listener)
+        if rng.random() < 0.1:
+            if len(self.socks) > 64:
+                old = self.socks.pop(8)
+                old.close()
+            s = socket.socket(self.socks[0].family, socket.SOCK_DGRAM)
+            s.bind(("127.0.0.1", 0))
+            s.setblocking(False)
+            self.socks.append(s)
+            self.sources += 1
+        else:
+            s = rng.choice(self.socks)
         try:
             s.sendto(data, addr)
         except OSError:
@@ -200,6 +213,7 @@ def one_run(tftpd, flavor, single, ro, dgrams, sb, rng_seed):
                               "culprit_alone_reproduces": single_repro, "batch_hex": [d[:80].hex() for _, d in batch] if not culprit else None}
             return res
         res["replies"] = dict(pool.replies)
+        res["sources"] = pool.sources
         return res
     finally:
         pool.close()
@@ -247,5 +261,5 @@ def run(tier):
     cov = {"evaluations": total, "distinct_nontrivial": len({(r['cfg'], l) for r in results for l in r['labels']}) + probes,
            "rule": "hostile datagrams (random bytes 0..1500 and up to 65507, opcode prefixes, truncations / NUL removal / byte mutations / splices of valid packets of all six kinds, valid requests with option values at 0,1,7,8,65464,65465,2^16,2^31,2^32,2^36,2^40,2^63,2^64-1,2^64,-1,+5,007,1e3,'',abc in every case spelling, alone and combined) are sent from 8 source sockets to one long-lived server per (build, port mode, read-only) in a seeded order; after every 64 datagrams a liveness probe (canonical RRQ must return the exact 700-byte file, from the listening port in single-port mode) and the process exit status are checked; a failing batch is bisected on fresh servers. Transfers started by hostile requests are cancelled with ERROR. distinct_nontrivial = probes answered + distinct (configuration, datagram class) pairs.",
            "samples": [{"config": r["cfg"], "datagrams": r["sent"], "probes_passed": r["probes"], "classes": r["labels"]} for r in results[:3]],
-           "exhaustive": False, "datagram_classes": labels, "replies_seen": replies, "probes": probes, "servers": len(results)}
+           "exhaustive": False, "datagram_classes": labels, "replies_seen": replies, "probes": probes, "servers": len(results), "source_endpoints": sum(r.get("sources", 0) for r in results)}
     return v.finish(cov, ["thread/descriptor exhaustion by thousands of simultaneous accepted transfers is outside the property (workers are cancelled)", "server-internal thread schedules are sampled, not controlled"])
